@@ -25,7 +25,30 @@ EXPLANATION = (
 RULE_TEXT = "one obligation per fact of each hybrid creator / hasher and per feasible path of assemble"
 
 
+def _attr_defs(ctx, cls, attr):
+    out = []
+    for c in ctx.prog.mro(cls):
+        for m in c.methods.values():
+            for x in own_nodes(m.node):
+                if isinstance(x, ast.Assign) and any(isinstance(t, ast.Attribute) and t.attr == attr and isinstance(t.value, ast.Name) and t.value.id == m.self_name for t in x.targets):
+                    out.append(x.value)
+    return out
+
+
+def _canon(ctx, cls, e):
+    """Text of a test atom with `self.flag` replaced by its single definition (self.single = os.path.isfile(self.path))."""
+    if isinstance(e, ast.Attribute) and isinstance(e.value, ast.Name):
+        ds = _attr_defs(ctx, cls, e.attr)
+        if len(ds) == 1 and isinstance(ds[0], (ast.Call, ast.Compare)):
+            return norm(ds[0])
+    return norm(e)
+
+
 def padding_switch(ctx, cq):
+    """C03.4: the value of the hasher's pad switch on every feasible path of assemble.  The switch starts as the 'pad' entry of
+    the keyword dictionary built in the constructor (or the hasher's default, on) and may be overwritten before the
+    traversal; it is evaluated with the branch decisions of the path (flags cached in attributes are replaced by their
+    definition)."""
     cls = ctx.prog.cls(cq)
     asm = cls.methods["assemble"]
     g = C.cfg_of(asm)
@@ -33,24 +56,38 @@ def padding_switch(ctx, cq):
     if not complete:
         ctx.undecided("C03.4", asm, "too many paths through assemble")
         return
+    # initial value of the switch
+    init_pad = None
+    init = cls.methods.get("__init__")
+    if init is not None:
+        for x in own_nodes(init.node):
+            if isinstance(x, ast.Assign) and any(norm(t) == "self.kws" for t in x.targets) and isinstance(x.value, ast.Dict):
+                for k, v in zip(x.value.keys, x.value.values):
+                    if k is not None and const_str(k) == "pad":
+                        init_pad = v
     n = 0
     for path in paths:
         decisions = {}
+        hybrid_flags = []
         bad = False
         stored = {}
-        pad_off = None
+        pad_expr = init_pad
+        pad_stmt = None
         trav = None
         order = []
         for node, lab in path:
             if node.kind == "test" and lab in ("true", "false"):
-                txt = norm(C.test_expr(node))
-                neg = txt.startswith("not ")
-                txt = txt[4:] if neg else txt
+                t = C.test_expr(node)
+                neg = isinstance(t, ast.UnaryOp) and isinstance(t.op, ast.Not)
+                core = t.operand if neg else t
+                txt = _canon(ctx, cls, core)
                 val = (lab == "true") != neg
                 if txt in decisions and decisions[txt] != val:
                     bad = True
                     break
                 decisions[txt] = val
+                if "hybrid" in norm(core):
+                    hybrid_flags.append(val)
             a = node.ast
             if node.kind == "stmt" and isinstance(a, ast.Assign) and isinstance(a.targets[0], ast.Subscript):
                 k = const_str(a.targets[0].slice)
@@ -58,30 +95,37 @@ def padding_switch(ctx, cq):
                 from .c06 import _is_info_base
                 if _is_info_base(ctx, None, a.targets[0].value, asm) and k:
                     stored[k] = a
-                if k == "pad" and "kws" in base:
-                    pad_off = (a, len(order))
+                if k == "pad" and "kws" in base and trav is None:
+                    pad_expr, pad_stmt = a.value, a
             if node.kind == "stmt" and a is not None and any(isinstance(x, ast.Call) and norm(x.func) == "self._traverse" for x in ast.walk(a)) and trav is None:
                 trav = len(order)
             order.append(node)
         if bad:
             continue
-        hyb = [v for k, v in decisions.items() if "hybrid" in k]
+        hyb = hybrid_flags
         if hyb and not all(hyb):
             continue        # v2-only path of the assembler: no v1 pieces
-        if "pieces" not in stored and not hyb:
-            pass
         n += 1
         cond = ", ".join("%s=%s" % kv for kv in sorted(decisions.items())) or "unconditional"
         label = "%s.assemble path [%s]" % (cls.name, cond)
+
+        def atom(x):
+            return decisions.get(_canon(ctx, cls, x))
+        pad = True if pad_expr is None else C.eval3(pad_expr, atom)       # hasher default: padding on
         if "files" in stored:
-            if pad_off is not None and isinstance(pad_off[0].value, ast.Constant) and pad_off[0].value.value is False:
+            if pad is False:
                 ctx.violated("C03.4", asm, "path [%s] lists padding entries (info['files']) but switches zero-extension off: files no longer start on piece boundaries of the hashed stream" % cond, label)
+            elif pad is None:
+                ctx.undecided("C03.4", asm, "path [%s]: multi-file payload; the value of the pad switch (`%s`) is not decided by the path" % (cond, norm(pad_expr)), label)
             else:
                 ctx.holds("C03.4", asm, "path [%s]: multi-file payload, padding hashed and listed" % cond, label)
         elif "length" in stored:
-            ok = pad_off is not None and isinstance(pad_off[0].value, ast.Constant) and pad_off[0].value.value is False and trav is not None and pad_off[1] < trav
-            ctx.decide("C03.4", asm, ok, "path [%s]: single file, only 'length' recorded and zero-extension switched off before hashing" % cond,
-                       "path [%s]: a single-file hybrid records only info['length'] but its last v1 piece is still hashed with zero padding that is described nowhere: a v1 client cannot verify it" % cond, label)
+            if pad is False:
+                ctx.holds("C03.4", asm, "path [%s]: single file, only 'length' recorded and zero-extension switched off before hashing" % cond, label)
+            elif pad is None:
+                ctx.undecided("C03.4", asm, "path [%s]: single file; the value of the pad switch (`%s`) is not decided by the path" % (cond, norm(pad_expr)), label)
+            else:
+                ctx.violated("C03.4", asm, "path [%s]: a single-file hybrid records only info['length'] but its last v1 piece is still hashed with zero padding that is described nowhere: a v1 client cannot verify it" % cond, label)
             lv = stored["length"].value
             ok_len = isinstance(lv, ast.Call) and C.is_ext_call(ctx, lv, asm, ("os.path.getsize",)) and norm(lv.args[0]) == "self.path"
             ctx.decide("C03.4", asm, ok_len, "single file: info['length'] = getsize(content path)", "single file: info['length'] is %s" % norm(lv), label + " :: length")
